@@ -51,7 +51,7 @@ var c02Chains = []c02Chain{
 }
 
 var (
-	c02Btc = onchain.NewBitcoinOnChain(nil, 0, 0, &chaincfg.RegressionNetParams)
+	c02Btc  = onchain.NewBitcoinOnChain(nil, 0, 0, &chaincfg.RegressionNetParams)
 	c02Lbtc = onchain.NewLiquidOnChain(nil, &network.Regtest)
 )
 
@@ -110,14 +110,14 @@ func c02ChainScript(ch c02Chain, p *swap.OpeningParams) (redeem []byte, csv uint
 // address the node asks it to fund and then fails.
 type c02Wallet struct{ addr string }
 
-func (w *c02Wallet) GetAddress() (string, error)                 { return "", fmt.Errorf("fake") }
+func (w *c02Wallet) GetAddress() (string, error)                  { return "", fmt.Errorf("fake") }
 func (w *c02Wallet) SendToAddress(string, uint64) (string, error) { return "", fmt.Errorf("fake") }
-func (w *c02Wallet) GetBalance() (uint64, error)                 { return 0, nil }
+func (w *c02Wallet) GetBalance() (uint64, error)                  { return 0, nil }
 func (w *c02Wallet) CreateAndBroadcastTransaction(p *swap.OpeningParams, asset []byte) (string, string, uint64, error) {
 	w.addr = p.OpeningAddress
 	return "", "", 0, fmt.Errorf("fake wallet: not broadcasting")
 }
-func (w *c02Wallet) SendRawTx(string) (string, error)     { return "", fmt.Errorf("fake") }
+func (w *c02Wallet) SendRawTx(string) (string, error)      { return "", fmt.Errorf("fake") }
 func (w *c02Wallet) GetFee(int64) (uint64, error)          { return 0, fmt.Errorf("fake") }
 func (w *c02Wallet) SetLabel(string, string, string) error { return nil }
 func (w *c02Wallet) Ping() (bool, error)                   { return true, nil }
